@@ -28,6 +28,8 @@ pub use logits::Logits;
 #[doc(hidden)]
 pub mod verif {
     pub use crate::filter::verif_hooks::simd_topk_with_isa;
-    pub use crate::sampler::verif_hooks::{multinomial, softmax_probs};
+    pub use crate::sampler::verif_hooks::{
+        multinomial, poison_scratch, softmax_probs, softmax_probs_stale_dst,
+    };
     pub use fastrand;
 }
